@@ -61,6 +61,8 @@ def cases(tier, seed):
     d = files.wspec_desc(rng, (nI, nX, 20), 4, (4, 4, 512), version=[0, 2, 9], holes=[3, 8, 20, 41], il=[5, 1], narr=3)
     for backend in ('local', 'blob'):
         out.append({'id': 'wi:%s' % backend, 'file': d, 'backend': backend, 'pairs': 8, 'orders': 4, 'cost': 2})
+    if tier == 'thorough':
+        out.append({'id': 'memcheck:faults', 'kind': 'memcheck', 'workload': 'faults', 'cost': 60})
     return out
 
 
@@ -132,7 +134,28 @@ class GateController(threading.Thread):
             last = -1
 
 
+
+def run_memcheck_case(case):
+    """thorough tier: the named bounded workload under valgrind memcheck, contracts off; only errors with a frame in libzfp/zfpy count."""
+    import os
+    from .. import memcheck
+    pin = os.environ.get('PYTHONPATH', '').split(os.pathsep)[0]
+    r = memcheck.run_workload(case['workload'], pin)
+    bad = []
+    if not r.get('done'):
+        return {'inconclusive': 'memcheck workload %s did not finish: rc=%s %s %s' % (case['workload'], r.get('rc'), r.get('stdout_tail'), r.get('stderr_tail')),
+                'counters': {'memcheck_runs': 1}}
+    for e in r['errors_in_codec'][:5]:
+        bad.append({'sig': 'memcheck:%s-in-codec' % e['kind'], 'detail': '%s: %s; frames %s' % (case['workload'], e['what'], e['frames'])})
+    if 'ACCEPTED-SUBMINIMUM' in r.get('stdout_tail', ''):
+        bad.append({'sig': 'memcheck:sub-minimum-rate-accepted', 'detail': r['stdout_tail']})
+    return {'violations': bad, 'counters': {'memcheck_runs': 1, 'memcheck_errors_total_any_frame': r['errors_total'], 'memcheck_errors_in_codec': len(r['errors_in_codec'])},
+            'strata': ['memcheck:' + case['workload']], 'key': case['id']}
+
+
 def run_case(case, ctx):
+    if case.get('kind') == 'memcheck':
+        return run_memcheck_case(case)
     import seismic_zfp
     from seismic_zfp.read import SgzReader
     rng = ctx['rng']
